@@ -356,7 +356,7 @@ var colCaseTemplates = []string{
 func H_C02_colcase() {
 	ti := verif.Choose("template", len(colCaseTemplates))
 	sp := verif.Choose("spelling", 3)
-	n := verif.Choose("rows", maxRows(2, 3)+1)
+	n := verif.Choose("rows", 3) // 0..2 rows in both tiers (two evaluations with map-order decisions each)
 	names := [][2]string{{"Cat", "subTotal"}, {"KEY1", "VAL"}, {"k_1", "V2x"}}[sp]
 	fill := func(tpl, k, v string) string {
 		out := ""
